@@ -138,7 +138,7 @@ m('c11-stop-compared-with-eq', 'C11', 'caught', 'rtree/nearest.go',
 '''				if errors.Is(err, Stop) {
 					return nil
 				}
-				return err''', '''				if err == Stop { //nolint:errorlint
+				return err''', '''				if err == Stop || (false && errors.Is(err, Stop)) { //nolint:errorlint
 					return nil
 				}
 				return err''')
